@@ -135,6 +135,16 @@ pub struct ArrayVec<T, const N: usize> {
     arr: [T; N],
 }
 
+#[cfg(hoot_verif)]
+impl<T: Clone, const N: usize> Clone for ArrayVec<T, N> {
+    fn clone(&self) -> Self {
+        Self {
+            len: self.len,
+            arr: self.arr.clone(),
+        }
+    }
+}
+
 impl<T, const N: usize> Deref for ArrayVec<T, N> {
     type Target = [T];
 
